@@ -41,9 +41,14 @@ type accPkg struct {
 	callbacks map[string][]string // regexp over a printed callee -> functions of the package it calls back (e.g. heap.Push -> SnowflakeHeap.Push/Swap/Less)
 	exported  bool                // library package: exported functions can be entered from outside with nothing held
 	assume    map[string][]string // exported function -> locks its callers are assumed to hold (recorded as an assumption)
+	label     string              // prefix of automatically named variables ("broker", "proxy", ...)
+	types     []string            // struct types all of whose fields are tracked automatically (variable <label>.<Type>.<field>)
+	exempt    map[string]string   // variable -> why it is not under the lock discipline (ordered by other synchronisation; dynamic side only)
 }
 
 var accPkgs []accPkg
+var accMissing []string        // tracked types that no longer exist
+var accAuto = map[string]bool{} // automatically tracked variables with at least one access
 
 func registerAcc(p accPkg) { accPkgs = append(accPkgs, p) }
 
@@ -67,6 +72,9 @@ type accCtx struct {
 	calls   map[string][][]string          // function name -> held sets at its call sites
 	unique  map[string]string              // base names that are unique in the package -> full function name
 	cbRe    map[string]*regexp.Regexp
+	auto    map[string]string // field name -> automatically tracked variable
+	fresh   map[string]bool   // locals of the current function that hold an object allocated in it (x := new(T), &T{}, T{}, var x T)
+	autoHit map[string]bool   // automatically tracked variables that have at least one access
 	varRe   []*regexp.Regexp
 	mutRe   []*regexp.Regexp
 	fileRe  []*regexp.Regexp
@@ -96,7 +104,86 @@ func (c *accCtx) varIdx(e ast.Expr) (string, int) {
 			return v.name, i
 		}
 	}
+	// automatically tracked struct fields: any selector x.f with f a field of a tracked type
+	if sel, ok := e.(*ast.SelectorExpr); ok {
+		if name, ok := c.auto[sel.Sel.Name]; ok && !c.isImport(sel.X) {
+			c.autoHit[name] = true
+			return name, -1
+		}
+	}
 	return "", -1
+}
+
+// isImport: x is the name of a package imported by the current file (pkg.Name is not a field access).
+func (c *accCtx) isImport(x ast.Expr) bool {
+	id, ok := x.(*ast.Ident)
+	if !ok {
+		return false
+	}
+	f := c.p.files[c.file]
+	if f == nil {
+		return false
+	}
+	for _, im := range f.Imports {
+		path := strings.Trim(im.Path.Value, "\"")
+		name := path[strings.LastIndex(path, "/")+1:]
+		if im.Name != nil {
+			name = im.Name.Name
+		}
+		if name == id.Name {
+			return true
+		}
+	}
+	return false
+}
+
+// freshLocals: identifiers bound in the function body to a newly allocated object.  A write x.f = e through
+// such a local at the function's own nesting level initialises an object that is not shared yet (it is
+// published later by a send, a store under a lock, a return or a go statement) and counts as constructor phase.
+func freshLocals(body *ast.BlockStmt) map[string]bool {
+	out := map[string]bool{}
+	isAlloc := func(e ast.Expr) bool {
+		switch x := e.(type) {
+		case *ast.CallExpr:
+			if id, ok := x.Fun.(*ast.Ident); ok && id.Name == "new" {
+				return true
+			}
+		case *ast.UnaryExpr:
+			if x.Op == token.AND {
+				_, ok := x.X.(*ast.CompositeLit)
+				return ok
+			}
+		case *ast.CompositeLit:
+			return true
+		}
+		return false
+	}
+	ast.Inspect(body, func(n ast.Node) bool {
+		switch x := n.(type) {
+		case *ast.FuncLit:
+			return false
+		case *ast.AssignStmt:
+			if x.Tok == token.DEFINE && len(x.Lhs) == len(x.Rhs) {
+				for i, l := range x.Lhs {
+					if id, ok := l.(*ast.Ident); ok && isAlloc(x.Rhs[i]) {
+						out[id.Name] = true
+					}
+				}
+			}
+		case *ast.DeclStmt:
+			if gd, ok := x.Decl.(*ast.GenDecl); ok {
+				for _, sp := range gd.Specs {
+					if vs, ok := sp.(*ast.ValueSpec); ok && len(vs.Values) == 0 && vs.Type != nil {
+						for _, nm := range vs.Names {
+							out[nm.Name] = true
+						}
+					}
+				}
+			}
+		}
+		return true
+	})
+	return out
 }
 
 func (c *accCtx) record(v string, held map[string]bool, write, atomicCtx bool) {
@@ -114,13 +201,21 @@ func (c *accCtx) record(v string, held map[string]bool, write, atomicCtx bool) {
 // inLit analyses the body of a function literal that runs as a goroutine or callback: it is labelled
 // apart from the enclosing function so that a constructor's background goroutine is not taken for
 // constructor-phase code.
-func (c *accCtx) inLit(f func()) {
-	old := c.fn
+func (c *accCtx) inLit(body *ast.BlockStmt, f func()) {
+	old, oldFresh := c.fn, c.fresh
 	if !strings.HasSuffix(c.fn, "·func") {
 		c.fn += "·func"
 	}
+	c.fresh = freshLocals(body) // objects allocated by the literal itself, at its own nesting level
 	f()
-	c.fn = old
+	c.fn, c.fresh = old, oldFresh
+}
+
+// recordInit records an initialising write through a fresh local (constructor phase).
+func (c *accCtx) recordInit(v string, held map[string]bool) {
+	n := len(*c.out)
+	c.record(v, held, true, false)
+	(*c.out)[n].ctor = true
 }
 
 func copySet(s map[string]bool) map[string]bool {
@@ -148,7 +243,7 @@ func (c *accCtx) exprAcc(e ast.Node, held map[string]bool, write bool, atomicCtx
 	ast.Inspect(e, func(n ast.Node) bool {
 		switch x := n.(type) {
 		case *ast.FuncLit:
-			c.inLit(func() { c.block(x.Body.List, map[string]bool{}) }) // callbacks and goroutines start with nothing held
+			c.inLit(x.Body, func() { c.block(x.Body.List, map[string]bool{}) }) // callbacks and goroutines start with nothing held
 			return false
 		case *ast.CallExpr:
 			callee := exprStr(c.p.fset, x.Fun)
@@ -165,7 +260,7 @@ func (c *accCtx) exprAcc(e ast.Node, held map[string]bool, write bool, atomicCtx
 			}
 			// x.M(...) with M a declared mutator of tracked variable x: a write of x
 			if sel, ok := x.Fun.(*ast.SelectorExpr); ok {
-				if v, i := c.varIdx(sel.X); v != "" && c.mutRe[i] != nil && c.mutRe[i].MatchString(sel.Sel.Name) {
+				if v, i := c.varIdx(sel.X); v != "" && i >= 0 && c.mutRe[i] != nil && c.mutRe[i].MatchString(sel.Sel.Name) {
 					c.record(v, held, true, false)
 					for _, a := range x.Args {
 						c.exprAcc(a, held, false, false)
@@ -194,6 +289,12 @@ func (c *accCtx) exprAcc(e ast.Node, held map[string]bool, write bool, atomicCtx
 		case *ast.SelectorExpr, *ast.Ident:
 			ex := x.(ast.Expr)
 			if v := c.varOf(ex); v != "" {
+				if sel, ok := ex.(*ast.SelectorExpr); ok && write {
+					if id, ok := sel.X.(*ast.Ident); ok && c.fresh[id.Name] {
+						c.recordInit(v, held)
+						return false
+					}
+				}
 				c.record(v, held, write, atomicCtx)
 				return false
 			}
@@ -269,7 +370,7 @@ func (c *accCtx) stmt(s ast.Stmt, held map[string]bool) {
 		c.exprAcc(x.Call, held, false, false)
 	case *ast.GoStmt:
 		if fl, ok := x.Call.Fun.(*ast.FuncLit); ok {
-			c.inLit(func() { c.block(fl.Body.List, map[string]bool{}) })
+			c.inLit(fl.Body, func() { c.block(fl.Body.List, map[string]bool{}) })
 			for _, a := range x.Call.Args {
 				c.exprAcc(a, held, false, false)
 			}
@@ -376,6 +477,37 @@ func analysePkg(cfg *accPkg) []access {
 	for pat := range cfg.callbacks {
 		c.cbRe[pat] = regexp.MustCompile("^(?:" + pat + ")$")
 	}
+	c.auto, c.autoHit = map[string]string{}, map[string]bool{}
+	if len(cfg.types) > 0 {
+		owners := map[string][]string{}
+		for tn, ts := range p.types {
+			if st, ok := ts.Type.(*ast.StructType); ok {
+				for _, f := range st.Fields.List {
+					for _, nm := range f.Names {
+						owners[nm.Name] = append(owners[nm.Name], tn)
+					}
+				}
+			}
+		}
+		tracked := map[string]bool{}
+		for _, t := range cfg.types {
+			tracked[t] = true
+			if _, ok := p.types[t]; !ok {
+				fmt.Fprintf(os.Stderr, "extract: tracked type %s not found in %s\n", t, cfg.dir)
+				accMissing = append(accMissing, cfg.dir+"."+t)
+			}
+		}
+		for f, ts := range owners {
+			any := false
+			for _, t := range ts {
+				any = any || tracked[t]
+			}
+			if any {
+				sort.Strings(ts)
+				c.auto[f] = cfg.label + "." + strings.Join(ts, "|") + "." + f
+			}
+		}
+	}
 	for _, v := range cfg.vars {
 		c.varRe = append(c.varRe, regexp.MustCompile("^(?:"+v.expr+")$"))
 		c.fileRe = append(c.fileRe, regexp.MustCompile(v.files))
@@ -423,6 +555,7 @@ func analysePkg(cfg *accPkg) []access {
 				continue
 			}
 			c.fn = name
+			c.fresh = freshLocals(fd.Body)
 			c.file = filepath.Base(p.fset.Position(fd.Pos()).Filename)
 			b := name
 			if i := strings.LastIndex(b, "."); i >= 0 {
@@ -457,6 +590,9 @@ func analysePkg(cfg *accPkg) []access {
 			break
 		}
 	}
+	for v := range c.autoHit {
+		accAuto[v] = true
+	}
 	return out
 }
 
@@ -486,15 +622,35 @@ func emitAccesses() string {
 	sort.Strings(rows)
 	b.WriteString(strings.Join(rows, ",\n"))
 	b.WriteString("\n]\n\n")
-	var vars []string
+	var vars, exempt []string
 	vs := map[string]bool{}
+	ex := map[string]string{}
+	for _, p := range accPkgs {
+		for v, why := range p.exempt {
+			ex[v] = why
+		}
+	}
 	for _, p := range accPkgs {
 		for _, v := range p.vars {
-			if !vs[v.name] {
+			if !vs[v.name] && ex[v.name] == "" {
 				vs[v.name] = true
 				vars = append(vars, leanStr(v.name))
 			}
 		}
+	}
+	for v := range accAuto {
+		if !vs[v] && ex[v] == "" {
+			vs[v] = true
+			vars = append(vars, leanStr(v))
+		}
+	}
+	for v, why := range ex {
+		exempt = append(exempt, "("+leanStr(v)+", "+leanStr(why)+")")
+	}
+	sort.Strings(exempt)
+	var missing []string
+	for _, m := range accMissing {
+		missing = append(missing, leanStr(m))
 	}
 	sort.Strings(vars)
 	fmt.Fprintf(&b, "def sharedVars : List String := [%s]\n\n", strings.Join(vars, ", "))
@@ -504,6 +660,8 @@ func emitAccesses() string {
 			as = append(as, leanStr(p.dir+" "+fn+" is only entered with "+strings.Join(ls, ", ")+" held"))
 		}
 	}
+	fmt.Fprintf(&b, "/-- Variables kept out of the lock discipline, with the reason (ordered by other synchronisation; covered by the race-detector workloads only). -/\ndef exemptVars : List (String × String) := [%s]\n\n", strings.Join(exempt, ",\n  "))
+	fmt.Fprintf(&b, "/-- Tracked struct types that no longer exist in the source (must be empty). -/\ndef missingTypes : List String := [%s]\n\n", strings.Join(missing, ", "))
 	sort.Strings(as)
 	fmt.Fprintf(&b, "/-- Caller assumptions used by the lockset analysis (declared in extract/specs_accesses.go). -/\ndef callerAssumptions : List String := [%s]\n\n", strings.Join(as, ", "))
 	b.WriteString("end Snowflake.Gen.Accesses\n")
